@@ -217,7 +217,10 @@ where
                 } else {
                     // The dump procedure is already running, but this does not guarantee that the dump for the desired blob will be made in it. 
                     // Therefore, we defer the dump procedure once more
-                    self.deferred_index_dump_info = Some(Box::new(DeferredEventData::new()));
+                    let deferred = Box::new(DeferredEventData::new());
+                    // The deadline was reset before this call: set it again, otherwise the deferred dump waits for an unrelated message
+                    self.update_deadline(deferred.next_deadline(min, max));
+                    self.deferred_index_dump_info = Some(deferred);
                 }
             } else {
                 let next_deadline = deferred.next_deadline(min, max);
